@@ -53,7 +53,7 @@ def new_part(before_text, after_text):
 
 def magnitude_bucket(x):
     import math
-    if x <= 0:
+    if not (x > 0) or math.isinf(x):
         return 'zero'
     return f'1e{int(math.floor(math.log10(x)))}'
 
